@@ -52,6 +52,7 @@ package payload
 
 //@ func (*Bin).Remove
 //@   on return assert removes-that-part: index >= 0 ==> len(bin.parts) == old(len(bin.parts)) - 1 && old(bin.parts[index]) == as(binned, *part) && bin.bytes == old(bin.bytes) - (old(bin.parts[index].end) - old(bin.parts[index].beg))
+//@   on return assert remaining-parts-keep-their-order: index >= 0 ==> forall(k, 0, index, bin.parts[k] == old(bin.parts[k])) && forall(k, index, len(bin.parts), bin.parts[k] == old(bin.parts[k+1]))
 //@   on return assert absent-is-noop: index < 0 ==> len(bin.parts) == old(len(bin.parts)) && bin.bytes == old(bin.bytes)
 
 // ---------------------------------------------------------------- wire format: header and framing (C13)
